@@ -258,7 +258,13 @@ def _remove_pockets_on_one_side_of_the_pinch(
                 else:
                     i_0 += n_int_added
 
-            j_rng = range(i_0 + 1, i + 1) if is_above_pinch else range(i + 1, i_0)
+            if is_above_pinch:
+                j_rng = range(i_0 + 1, i + 1)
+            elif n_int_added == 0 and i != pinch_loc:
+                # The pocket closes on the exit row itself (no row was inserted)
+                j_rng = range(i, i_0)
+            else:
+                j_rng = range(i + 1, i_0)
             for j in j_rng:
                 H_NP_vals[j] = H_vals[i_0]
 
